@@ -355,6 +355,445 @@ def translate_source(src, file, specs):
     return "\n".join(out), status
 
 
+# =========================================================================================
+# fragment 2: single-loop sweep kernels over 1-D arrays  ->  Generated/Sweeps.lean (namespace Pf.Generated.Sw)
+# =========================================================================================
+# function body =  initialisations ; exactly ONE for-loop ; `return`
+#   initialisations  `x = a.copy()`, `x = np.full(k | a.shape, v, dtype=…)`, `x = np.zeros(k | a.shape, dtype=…)`,
+#                    `x = <scalar expression>`  (every name bound once; `dtype` arguments are ignored)
+#   loop header      `for i in seq:` | `for i in seq[::-1]:` | `for i in range(k):`   (no `else`)
+#   loop body        `x = e` / `x op= e` on scalars local to the iteration, `a[i] = e`, `a[i] op= e` (op in + - *) on
+#                    arrays CREATED by the initialisations (never on a parameter), `if / elif / else`, `continue`, `pass`
+#   return           a name or a tuple of names / scalar expressions
+#   types            nat (index: loop variable, entries of index arrays / `seq`, sizes, the missing-value parameter),
+#                    int (entries of value arrays, nodata; unbounded - float fields are integers under the exact-input
+#                    discipline), bool, `Array Int`, `Array Nat`, `List Nat` (seq), `Option (Array Bool)` (mask=None).
+#                    A subscript must be of type nat ("anything used as a subscript is an index"); nat has `+ * // %`
+#                    but no `-`; comparisons need both sides of the same type; int literals adapt to the other side.
+#   expressions      as in fragment 1 plus `a[i]` -> `a[i]!`, `a.size`, `mask is None`, `mask is not None`, `mask[i]`
+# The loop becomes `List.foldl (<name>_step params…) state (seq | seq.reverse | List.range k)` with the tuple of the
+# written arrays as state and the body as a separate def `<name>_step` (continuation style like fragment 1), so that an
+# obligation can be stated per loop step. Writes are `Array.setIfInBounds`, reads `a[i]!` (out-of-range reads give the
+# default, out-of-range writes are dropped: IndexError / negative-index wrap-around are not modelled, obligations and
+# comparisons are for indices < size). Everything else is REFUSED (nested loops, `while`, `break`, `return` inside the
+# loop, list appends, other slices, calls that are not listed, writes to parameters, array aliases, scalars carried
+# from one iteration to the next, statements between the loop and the `return`).
+NAT, ARRI, ARRN, SEQ, OPTB = "nat", "arri", "arrn", "seq", "optb"
+_NET = {"idxs_ds": ARRN, "seq": SEQ, "data": ARRI, "nodata": INT}
+SWEEPS = [
+    ("accuflux", "streams.py", "accuflux", _NET),
+    ("accuflux_ds", "streams.py", "accuflux_ds", _NET),
+    ("fillnodata_upstream", "core.py", "fillnodata_upstream", _NET),
+    ("upstream_count", "core.py", "upstream_count", {"idxs_ds": ARRN, "mv": NAT, "mask": OPTB}),
+    ("upstream_sum", "arithmetics.py", "upstream_sum", {"idxs_ds": ARRN, "data": ARRI, "nodata": INT, "mv": NAT}),
+    ("main_upstream", "core.py", "main_upstream", {"idxs_ds": ARRN, "uparea": ARRI, "upa_min": INT, "mv": NAT}),
+]
+SW_PRELUDE = """/-- `mask[i]` of an optional boolean array (only evaluated behind `mask is not None`) -/
+def optGetB (m : Option (Array Bool)) (i : Nat) : Bool :=
+  match m with
+  | none => false
+  | some a => a[i]!
+"""
+SW_TYPES = {NAT: "Nat", INT: "Int", BOOL: "Bool", ARRI: "Array Int", ARRN: "Array Nat", SEQ: "List Nat",
+            OPTB: "Option (Array Bool)"}
+SW_RESERVED = {"optGetB", "Array", "List", "Option", "some", "none", "size", "length", "reverse", "range", "foldl",
+               "setIfInBounds", "replicate"}
+
+
+def sw_type(t):
+    if t in SW_TYPES:
+        return SW_TYPES[t]
+    if isinstance(t, tuple) and t[0] == "tuple":
+        return " × ".join(("(" + sw_type(x) + ")") if isinstance(x, tuple) else sw_type(x) for x in t[1:])
+    raise Unsupported(f"type {t!r}")
+
+
+def sname(py):
+    if py in SW_RESERVED or py.endswith("'"):
+        return py + "_"
+    return lname(py)
+
+
+def numpy_aliases(tree):
+    out = set()
+    for s in tree.body:
+        if isinstance(s, ast.Import):
+            for a in s.names:
+                if a.name == "numpy":
+                    out.add(a.asname or "numpy")
+    return out
+
+
+def is_doc(s):
+    return isinstance(s, ast.Expr) and isinstance(s.value, ast.Constant) and isinstance(s.value.value, str)
+
+
+class SwTr:
+    def __init__(self, module_bound, np_names):
+        self.module_bound = module_bound
+        self.np_names = np_names
+
+    # ---------------- scalar expressions ----------------
+    def pair(self, l, r, env):
+        """two operands that must have the same type; an int literal adapts to the other side"""
+        if isinstance(l, ast.Constant) and not isinstance(r, ast.Constant):
+            b, tb = self.ex(r, env)
+            a, ta = self.ex(l, env, want=tb)
+        else:
+            a, ta = self.ex(l, env)
+            b, tb = self.ex(r, env, want=ta)
+        return a, ta, b, tb
+
+    def ex(self, n, env, want=None):
+        if isinstance(n, ast.Constant):
+            if isinstance(n.value, bool):
+                return ("true" if n.value else "false"), BOOL
+            if isinstance(n.value, int):
+                if want == NAT:
+                    return f"({n.value} : Nat)", NAT
+                return f"({n.value} : Int)", INT
+            raise Unsupported(f"constant {n.value!r}")
+        if isinstance(n, ast.Name):
+            if n.id not in env:
+                raise Unsupported(f"name `{n.id}` is not a parameter or a local bound on this path")
+            return sname(n.id), env[n.id]
+        if isinstance(n, ast.UnaryOp):
+            a, t = self.ex(n.operand, env)
+            if isinstance(n.op, ast.USub) and t == INT:
+                return f"(-{a})", INT
+            if isinstance(n.op, ast.UAdd) and t in (INT, NAT):
+                return a, t
+            if isinstance(n.op, ast.Not) and t == BOOL:
+                return f"(!{a})", BOOL
+            raise Unsupported(f"unary {type(n.op).__name__} on {t}")
+        if isinstance(n, ast.BinOp):
+            a, ta, b, tb = self.pair(n.left, n.right, env)
+            if ta != tb or ta not in (INT, NAT):
+                raise Unsupported(f"binary {type(n.op).__name__} on {ta}, {tb}")
+            if isinstance(n.op, ast.Sub) and ta == NAT:
+                raise Unsupported("subtraction on index-typed operands")
+            if type(n.op) in ARITH:
+                return f"({a} {ARITH[type(n.op)]} {b})", ta
+            if isinstance(n.op, ast.FloorDiv):
+                return (f"(Int.fdiv {a} {b})" if ta == INT else f"({a} / {b})"), ta
+            if isinstance(n.op, ast.Mod):
+                return (f"(Int.fmod {a} {b})" if ta == INT else f"({a} % {b})"), ta
+            raise Unsupported(f"binary operator {type(n.op).__name__}")
+        if isinstance(n, ast.Compare):
+            if len(n.ops) == 1 and isinstance(n.ops[0], (ast.Is, ast.IsNot)):
+                c = n.comparators[0]
+                if isinstance(n.left, ast.Name) and env.get(n.left.id) == OPTB and isinstance(c, ast.Constant) \
+                        and c.value is None:
+                    return f"({sname(n.left.id)}.{'isNone' if isinstance(n.ops[0], ast.Is) else 'isSome'})", BOOL
+                raise Unsupported("`is` other than `<optional array> is [not] None`")
+            parts, left = [], n.left
+            for op, right in zip(n.ops, n.comparators):
+                if type(op) not in CMP:
+                    raise Unsupported(f"comparison {type(op).__name__}")
+                a, ta, b, tb = self.pair(left, right, env)
+                if ta != tb or ta not in (INT, NAT):
+                    raise Unsupported(f"comparison of {ta} with {tb}")
+                parts.append(f"decide ({a} {CMP[type(op)]} {b})")
+                left = right
+            return ("(" + " && ".join(parts) + ")") if len(parts) > 1 else f"({parts[0]})", BOOL
+        if isinstance(n, ast.BoolOp):
+            vals = [self.ex(v, env) for v in n.values]
+            if any(t != BOOL for _, t in vals):
+                raise Unsupported("and/or on a non-boolean operand")
+            return "(" + (" && " if isinstance(n.op, ast.And) else " || ").join(a for a, _ in vals) + ")", BOOL
+        if isinstance(n, ast.IfExp):
+            c, tc = self.ex(n.test, env)
+            a, ta, b, tb = self.pair(n.body, n.orelse, env)
+            if tc != BOOL or ta != tb or ta not in (INT, NAT, BOOL):
+                raise Unsupported("conditional expression: test not boolean or branches of different type")
+            return f"(if {c} then {a} else {b})", ta
+        if isinstance(n, ast.Subscript):
+            if not isinstance(n.value, ast.Name) or not isinstance(n.ctx, ast.Load):
+                raise Unsupported("subscript of a non-name")
+            v, tv = self.ex(n.value, env)
+            if tv not in (ARRI, ARRN, OPTB):
+                raise Unsupported(f"subscript of a {tv}")
+            if isinstance(n.slice, (ast.Slice, ast.Tuple)):
+                raise Unsupported("slice / multi-dimensional subscript")
+            i, ti = self.ex(n.slice, env, want=NAT)
+            if ti != NAT:
+                raise Unsupported("subscript is not index-typed (a value is used as an index)")
+            if tv == OPTB:
+                return f"(optGetB {v} {i})", BOOL
+            return f"{v}[{i}]!", (INT if tv == ARRI else NAT)
+        if isinstance(n, ast.Attribute):
+            if n.attr == "size" and isinstance(n.value, ast.Name) and env.get(n.value.id) in (ARRI, ARRN, SEQ):
+                v = sname(n.value.id)
+                return (f"{v}.length" if env[n.value.id] == SEQ else f"{v}.size"), NAT
+            raise Unsupported(f"attribute .{n.attr}")
+        if isinstance(n, ast.Call):
+            if n.keywords or not isinstance(n.func, ast.Name):
+                raise Unsupported("call with keywords / of a non-name")
+            f = n.func.id
+            if f in env or f in self.module_bound:
+                raise Unsupported(f"call of the local / module-level `{f}`")
+            if f == "int" and len(n.args) == 1:
+                a, t = self.ex(n.args[0], env, want=want)
+                if t in (INT, NAT):
+                    return a, t
+            if f in ("min", "max") and len(n.args) == 2:
+                a, ta, b, tb = self.pair(n.args[0], n.args[1], env)
+                if ta == tb and ta in (INT, NAT):
+                    return f"({f} {a} {b})", ta
+            raise Unsupported(f"call of `{f}`")
+        raise Unsupported(f"expression {type(n).__name__}")
+
+    # ---------------- initialisations ----------------
+    def size_of(self, n, env):
+        if isinstance(n, ast.Attribute) and n.attr == "shape" and isinstance(n.value, ast.Name) \
+                and env.get(n.value.id) in (ARRI, ARRN):
+            return f"{sname(n.value.id)}.size"     # 1-D arrays: `a.shape` = (a.size,)
+        k, tk = self.ex(n, env, want=NAT)
+        if tk != NAT:
+            raise Unsupported("array size is not index-typed")
+        return k
+
+    def init(self, n, env):
+        """right-hand side of an initialisation -> (lean, type)"""
+        if isinstance(n, ast.Call) and isinstance(n.func, ast.Attribute) and isinstance(n.func.value, ast.Name):
+            base, attr = n.func.value.id, n.func.attr
+            if attr == "copy" and not n.args and not n.keywords and env.get(base) in (ARRI, ARRN):
+                return sname(base), env[base]
+            if base in self.np_names and base not in env and attr in ("full", "zeros"):
+                if any(k.arg != "dtype" for k in n.keywords) or len(n.args) != (2 if attr == "full" else 1):
+                    raise Unsupported(f"np.{attr} with these arguments")
+                k = self.size_of(n.args[0], env)
+                if attr == "zeros":
+                    return f"Array.replicate {k} (0 : Int)", ARRI
+                v, tv = self.ex(n.args[1], env)
+                if tv not in (INT, NAT):
+                    raise Unsupported("np.full with a non-scalar fill value")
+                return f"Array.replicate {k} {v}", (ARRI if tv == INT else ARRN)
+            raise Unsupported(f"call of `{base}.{attr}`")
+        e, t = self.ex(n, env)
+        if t not in (INT, NAT, BOOL):
+            raise Unsupported("array alias / non-scalar initialisation")
+        return e, t
+
+    # ---------------- loop body (continuation style) ----------------
+    def body(self, stmts, env, ind, state, frozen):
+        """state: names of the written arrays (order fixed); frozen: names that must not be re-bound in the loop"""
+        pad = "  " * ind
+        if not stmts:
+            return pad + tuple_text([sname(x) for x in state]) + "\n"
+        s, rest = stmts[0], stmts[1:]
+        if is_doc(s) or isinstance(s, ast.Pass):
+            return self.body(rest, env, ind, state, frozen)
+        if isinstance(s, ast.Continue):
+            return pad + tuple_text([sname(x) for x in state]) + "\n"
+        if isinstance(s, ast.Assign) or isinstance(s, ast.AugAssign):
+            if isinstance(s, ast.Assign):
+                if len(s.targets) != 1:
+                    raise Unsupported("chained assignment")
+                tgt, val = s.targets[0], s.value
+            else:
+                if type(s.op) not in ARITH and not isinstance(s.op, (ast.FloorDiv, ast.Mod)):
+                    raise Unsupported(f"augmented assignment {type(s.op).__name__}")
+                tgt = s.target
+                load = ast.Name(id=tgt.id, ctx=ast.Load()) if isinstance(tgt, ast.Name) else \
+                    ast.Subscript(value=tgt.value, slice=tgt.slice, ctx=ast.Load()) if isinstance(tgt, ast.Subscript) else None
+                if load is None:
+                    raise Unsupported("augmented assignment target")
+                val = ast.BinOp(left=load, op=s.op, right=s.value)
+            if isinstance(tgt, ast.Name):
+                if tgt.id in frozen:
+                    raise Unsupported(f"`{tgt.id}` is re-bound inside the loop (value carried between iterations)")
+                e, t = self.ex(val, env)
+                if t not in (INT, NAT, BOOL):
+                    raise Unsupported("non-scalar local inside the loop")
+                env2 = dict(env)
+                env2[tgt.id] = t
+                return f"{pad}let {sname(tgt.id)} : {sw_type(t)} := {e}\n" + self.body(rest, env2, ind, state, frozen)
+            if isinstance(tgt, ast.Subscript) and isinstance(tgt.value, ast.Name):
+                a = tgt.value.id
+                if a not in state:
+                    raise Unsupported(f"write to `{a}` which is not an array created by the initialisations")
+                if isinstance(tgt.slice, (ast.Slice, ast.Tuple)):
+                    raise Unsupported("slice assignment")
+                i, ti = self.ex(tgt.slice, env, want=NAT)
+                if ti != NAT:
+                    raise Unsupported("subscript is not index-typed (a value is used as an index)")
+                te = INT if env[a] == ARRI else NAT
+                e, t = self.ex(val, env, want=te)
+                if t != te:
+                    raise Unsupported(f"a {t} is stored into `{a}`")
+                return (f"{pad}let {sname(a)} : {sw_type(env[a])} := {sname(a)}.setIfInBounds {i} {e}\n"
+                        + self.body(rest, env, ind, state, frozen))
+            raise Unsupported("assignment target")
+        if isinstance(s, ast.If):
+            c, tc = self.ex(s.test, env)
+            if tc != BOOL:
+                raise Unsupported("`if` on a non-boolean (truthiness is not translated)")
+            a = self.body(list(s.body) + rest, env, ind + 1, state, frozen)
+            b = self.body(list(s.orelse) + rest, env, ind + 1, state, frozen)
+            return f"{pad}if {c} then\n{a}{pad}else\n{b}"
+        raise Unsupported(f"statement {type(s).__name__} inside the loop")
+
+
+def tuple_text(xs):
+    return xs[0] if len(xs) == 1 else "(" + ", ".join(xs) + ")"
+
+
+def translate_sweep(tree, file, lean_name, py_name, kinds):
+    """-> (lean text: `<name>_step` and `<name>`, None) or (marker text, reason)"""
+    try:
+        fd = find_function(tree, py_name)
+        a = fd.args
+        if a.vararg or a.kwarg or a.kwonlyargs or a.posonlyargs:
+            raise Unsupported("*args / **kwargs / keyword-only parameters")
+        params = [x.arg for x in a.args]
+        for k in kinds:
+            if k not in params:
+                raise Unsupported(f"parameter `{k}` (declared {kinds[k]}) is gone")
+        if len(set(sname(p) for p in params)) != len(params):
+            raise Unsupported("parameter names collide")
+        env = {p: kinds.get(p, INT) for p in params}
+        bound, _ = module_defs(tree)
+        tr = SwTr(bound, numpy_aliases(tree))
+        stmts = [s for s in fd.body if not is_doc(s) and not isinstance(s, ast.Pass)]
+        loops = [k for k, s in enumerate(stmts) if isinstance(s, ast.For)]
+        if len(loops) != 1:
+            raise Unsupported(f"{len(loops)} top-level for-loops (exactly one is translated)")
+        pre, loop, post = stmts[:loops[0]], stmts[loops[0]], stmts[loops[0] + 1:]
+        # ---- initialisations
+        lets, locals_ = "", []
+        for s in pre:
+            if not (isinstance(s, ast.Assign) and len(s.targets) == 1 and isinstance(s.targets[0], ast.Name)):
+                raise Unsupported(f"statement {type(s).__name__} before the loop")
+            x = s.targets[0].id
+            if x in env:
+                raise Unsupported(f"`{x}` is bound twice before the loop")
+            e, t = tr.init(s.value, env)
+            lets += f"  let {sname(x)} : {sw_type(t)} := {e}\n"
+            env[x] = t
+            locals_.append(x)
+        # ---- loop header
+        if loop.orelse or not isinstance(loop.target, ast.Name) or loop.target.id in env:
+            raise Unsupported("loop with `else`, a non-name target or a target that shadows a name")
+        it, var = loop.iter, loop.target.id
+        if isinstance(it, ast.Name) and env.get(it.id) == SEQ:
+            iter_text = sname(it.id)
+        elif isinstance(it, ast.Subscript) and isinstance(it.value, ast.Name) and env.get(it.value.id) == SEQ \
+                and isinstance(it.slice, ast.Slice) and it.slice.lower is None and it.slice.upper is None \
+                and isinstance(it.slice.step, ast.UnaryOp) and isinstance(it.slice.step.op, ast.USub) \
+                and isinstance(it.slice.step.operand, ast.Constant) and type(it.slice.step.operand.value) is int \
+                and it.slice.step.operand.value == 1:
+            iter_text = sname(it.value.id) + ".reverse"
+        elif isinstance(it, ast.Call) and isinstance(it.func, ast.Name) and it.func.id == "range" \
+                and "range" not in env and "range" not in bound and len(it.args) == 1 and not it.keywords:
+            k, tk = tr.ex(it.args[0], env, want=NAT)
+            if tk != NAT:
+                raise Unsupported("range() of a non-index")
+            iter_text = f"(List.range {k})"
+        else:
+            raise Unsupported("loop iterable is not `seq`, `seq[::-1]` or `range(k)`")
+        # ---- state = arrays written in the body
+        written = []
+        for x in ast.walk(loop):
+            if isinstance(x, (ast.For, ast.While, ast.AsyncFor)) and x is not loop:
+                raise Unsupported("nested loop")
+            tgts = x.targets if isinstance(x, ast.Assign) else [x.target] if isinstance(x, ast.AugAssign) else []
+            for t in tgts:
+                if isinstance(t, ast.Subscript) and isinstance(t.value, ast.Name) and t.value.id not in written:
+                    written.append(t.value.id)
+        for w in written:
+            if w not in locals_ or env[w] not in (ARRI, ARRN):
+                raise Unsupported(f"write to `{w}` which is not an array created by the initialisations")
+        state = [x for x in locals_ if x in written]
+        if not state:
+            raise Unsupported("the loop writes no array")
+        names = params + locals_ + [var]
+        if len(set(sname(p) for p in names)) != len(names) or "st'" in names:
+            raise Unsupported("names collide")
+        env_body = dict(env)
+        env_body[var] = NAT
+        frozen = set(env) | {var}
+        body = tr.body(list(loop.body), env_body, 1, state, frozen)
+        # ---- return
+        if len(post) != 1 or not isinstance(post[0], ast.Return) or post[0].value is None:
+            raise Unsupported("the loop is not followed by exactly one `return <value>`")
+        rv = post[0].value
+        elts = list(rv.elts) if isinstance(rv, ast.Tuple) else [rv]
+        rets = []
+        for e in elts:
+            if isinstance(e, ast.Name) and env.get(e.id) in (ARRI, ARRN):
+                rets.append((sname(e.id), env[e.id]))
+            else:
+                txt, t = tr.ex(e, env)
+                if t not in (INT, NAT, BOOL):
+                    raise Unsupported("returned value")
+                rets.append((txt, t))
+        tres = rets[0][1] if len(rets) == 1 else TUP(*[t for _, t in rets])
+        ret_text = tuple_text([x for x, _ in rets])
+        # ---- emit
+        st_t = sw_type(env[state[0]]) if len(state) == 1 else sw_type(TUP(*[env[x] for x in state]))
+        fixed = params + [x for x in locals_ if x not in state]
+        sig = " ".join(f"({sname(p)} : {sw_type(env[p])})" for p in params)
+        sig_fixed = " ".join(f"({sname(p)} : {sw_type(env[p])})" for p in fixed)
+        args_fixed = " ".join(sname(p) for p in fixed)
+        src = ast.unparse(fd)
+        sha = hashlib.sha1(src.encode()).hexdigest()[:12]
+        if len(state) == 1:
+            st_param = f"({sname(state[0])} : {st_t})"
+            unpack = ""
+            fold = (f"  let {sname(state[0])} : {st_t} := List.foldl ({lean_name}_step {args_fixed}) "
+                    f"{sname(state[0])} {iter_text}\n")
+        else:
+            st_param = f"(st' : {st_t})"
+            unpack = "".join(f"  let {sname(x)} : {sw_type(env[x])} := {proj(chr(115) + chr(116) + chr(39), len(state), k)}\n"
+                             for k, x in enumerate(state))
+            fold = (f"  let st' : {st_t} := List.foldl ({lean_name}_step {args_fixed}) "
+                    f"{tuple_text([sname(x) for x in state])} {iter_text}\n" + unpack)
+        text = (f"/-- one iteration of the loop of `{file[:-3]}.{py_name}` (loop variable `{var}`; state: "
+                f"{', '.join(state)}) -/\n"
+                f"def {lean_name}_step {sig_fixed} {st_param} ({sname(var)} : Nat) : {st_t} :=\n{unpack}{body}\n"
+                f"/-- `{file[:-3]}.{py_name}({', '.join(params)})` translated by harness/extract_fn.py "
+                f"(source sha1 {sha}) -/\n"
+                f"def {lean_name} {sig} : {sw_type(tres)} :=\n{lets}{fold}  {ret_text}\n")
+        return text, None
+    except Unsupported as e:
+        reason = str(e).replace("-/", "- /")
+        return (f"/-- `{file[:-3]}.{py_name}` is OUTSIDE the translated sweep fragment: {reason} -/\n"
+                f"def unsupported_{lean_name} : Unit := ()\n"), str(e)
+
+
+def translate_sweep_source(src, file, specs):
+    """specs: [(lean name, python name, kinds)] -> (lean text of the defs, {lean name: reason or None})"""
+    tree = ast.parse(src)
+    out, status = [], {}
+    for lean_name, py_name, kinds in specs:
+        text, reason = translate_sweep(tree, file, lean_name, py_name, kinds)
+        out.append(text)
+        status[lean_name] = reason
+    return "\n".join(out), status
+
+
+def render_sweeps(repo=None):
+    repo = repo or REPO
+    out = ["/-! GENERATED by harness/extract_fn.py from /repo - do not edit. Single-loop sweep kernels of the library",
+           "translated statement by statement: the loop is a `List.foldl` of `<name>_step` over `seq` / `seq.reverse` /",
+           "`List.range k`; index arrays are `Array Nat`, value arrays `Array Int` (unbounded). -/",
+           "set_option linter.unusedVariables false", "namespace Pf.Generated.Sw", "", SW_PRELUDE]
+    status = {}
+    for lean_name, file, py_name, kinds in SWEEPS:
+        path = os.path.join(repo, "pyflwdir", file)
+        try:
+            src = open(path).read()
+            text, st = translate_sweep_source(src, file, [(lean_name, py_name, kinds)])
+        except (OSError, SyntaxError) as e:
+            text = f"/-- `{file}` could not be parsed: {type(e).__name__} -/\ndef unsupported_{lean_name} : Unit := ()\n"
+            st = {lean_name: f"{type(e).__name__}"}
+        out.append(text)
+        status.update(st)
+    out.append("end Pf.Generated.Sw")
+    return "\n".join(out) + "\n", status
+
+
 def render(repo=None):
     repo = repo or REPO
     out = ["import PfVerif.Generated.Tables",
@@ -378,7 +817,10 @@ def render(repo=None):
 
 def generate(gen_dir, write_if_changed):
     text, _ = render()
-    return write_if_changed(os.path.join(gen_dir, "Funcs.lean"), text)
+    a = write_if_changed(os.path.join(gen_dir, "Funcs.lean"), text)
+    text2, _ = render_sweeps()
+    b = write_if_changed(os.path.join(gen_dir, "Sweeps.lean"), text2)
+    return bool(a) or bool(b)
 
 
 if __name__ == "__main__":
@@ -388,5 +830,10 @@ if __name__ == "__main__":
     old = open(gen).read() if os.path.exists(gen) else None
     if old != text:
         open(gen, "w").write(text)
-    for k, v in status.items():
+    text2, status2 = render_sweeps()
+    gen2 = os.path.join(LEAN_DIR, "PfVerif", "Generated", "Sweeps.lean")
+    old2 = open(gen2).read() if os.path.exists(gen2) else None
+    if old2 != text2:
+        open(gen2, "w").write(text2)
+    for k, v in list(status.items()) + list(status2.items()):
         print(f"extract_fn: {k}: " + ("translated" if v is None else "REFUSED - " + v))
